@@ -219,6 +219,8 @@ func TestVerifC10(t *testing.T) {
 		}
 		g.enumerate(depth)
 		g.tokenItems()
+		g.sdpItems()
+		g.tokenTimeItems()
 		sample := newVrng(env.seed, 77)
 		for _, it := range g.items {
 			home := map[int]bool{}
